@@ -1,97 +1,173 @@
-(* C01 driver: histories through the extracted model (Model.run / iv_run) and spec (Spec.spec_run) *)
+(* C01 driver: histories through the extracted model (Model.run / iv_run, ModelExt.xrun / st_run / iv_xrun)
+   and spec (Spec.spec_run, SpecExt.xspec_run / st_spec_run / iv_xspec_run) *)
 let b t = next_int t <> 0
-let parse_ops (t : toks) : op list * iv_op list =
+
+(* static_vector flavours: every operation as an xop (the operations of Model.v are wrapped in Base) *)
+let parse_sv (t : toks) : xop list =
   let k = next_int t in
-  let ops = ref [] and ivs = ref [] in
+  let ops = ref [] in
+  let push x = ops := x :: !ops in
+  let base x = push (Base x) in
   for _ = 1 to k do
     let o = next_str t in
-    let push x = ops := x :: !ops in
-    let pushi x = ivs := x :: !ivs in
     (match o with
-     | "swp" -> push Swap
-     | "rel" -> push Relations
+     | "swp" -> base Swap
+     | "rel" -> base Relations
+     | "fsw" -> push SwapFree
      | _ ->
        let tg = b t in
        (match o with
-        | "pb" -> let x = next_z t in push (PushBack (tg, x))
-        | "eb" -> let x = next_z t in push (EmplaceBack (tg, x))
-        | "pop" -> push (PopBack tg); pushi (IvPop tg)
-        | "icr" -> let p = next_z t in let x = next_z t in push (InsertCR (tg, p, x))
-        | "irv" -> let p = next_z t in let x = next_z t in push (InsertRV (tg, p, x))
-        | "emp" -> let p = next_z t in let x = next_z t in push (EmplaceAt (tg, p, x))
-        | "inn" -> let p = next_z t in let n = next_z t in let x = next_z t in push (InsertN (tg, p, n, x))
-        | "irg" -> let p = next_z t in let xs = next_zlist t in push (InsertRange (tg, p, xs))
-        | "era" -> let p = next_z t in push (EraseAt (tg, p))
-        | "err" -> let f = next_z t in let l = next_z t in push (EraseRange (tg, f, l))
-        | "clr" -> push (Clear tg); pushi (IvClear tg)
-        | "rsz" -> let n = next_z t in push (Resize (tg, n))
-        | "rsv" -> let n = next_z t in let x = next_z t in push (ResizeVal (tg, n, x))
-        | "asn" -> let n = next_z t in let x = next_z t in push (AssignN (tg, n, x))
-        | "asr" -> let xs = next_zlist t in push (AssignRange (tg, xs))
-        | "cpa" -> push (CopyAssign tg)
-        | "mva" -> push (MoveAssign tg)
-        | "cpc" -> push (CopyConstruct tg)
-        | "mrt" -> push (MoveRoundTrip tg)
-        | "eif" -> let p = next_z t in push (EraseIf (tg, p))
-        | "erv" -> let x = next_z t in push (EraseVal (tg, x))
-        | "at" -> let i = next_z t in push (At (tg, i)); pushi (IvAt (tg, i))
-        | "fr" -> push (Front tg); pushi (IvFront tg)
-        | "bk" -> push (Back tg); pushi (IvBack tg)
-        | "sca" -> push (SelfCopyAssign tg)
-        | "ssw" -> push (SelfSwap tg)
-        | "tpb" -> let x = next_z t in pushi (IvTryPush (tg, x))
-        | "upb" -> let x = next_z t in pushi (IvUncheckedPush (tg, x))
-        | "ivc" -> pushi (IvCopyConstruct tg)
-        | "ivm" -> pushi (IvMoveConstruct tg)
+        | "pb" -> let x = next_z t in base (PushBack (tg, x))
+        | "eb" -> let x = next_z t in base (EmplaceBack (tg, x))
+        | "pop" -> base (PopBack tg)
+        | "icr" -> let p = next_z t in let x = next_z t in base (InsertCR (tg, p, x))
+        | "irv" -> let p = next_z t in let x = next_z t in base (InsertRV (tg, p, x))
+        | "emp" -> let p = next_z t in let x = next_z t in base (EmplaceAt (tg, p, x))
+        | "inn" -> let p = next_z t in let n = next_z t in let x = next_z t in base (InsertN (tg, p, n, x))
+        | "irg" -> let p = next_z t in let xs = next_zlist t in base (InsertRange (tg, p, xs))
+        | "era" -> let p = next_z t in base (EraseAt (tg, p))
+        | "err" -> let f = next_z t in let l = next_z t in base (EraseRange (tg, f, l))
+        | "clr" -> base (Clear tg)
+        | "rsz" -> let n = next_z t in base (Resize (tg, n))
+        | "rsv" -> let n = next_z t in let x = next_z t in base (ResizeVal (tg, n, x))
+        | "asn" -> let n = next_z t in let x = next_z t in base (AssignN (tg, n, x))
+        | "asr" -> let xs = next_zlist t in base (AssignRange (tg, xs))
+        | "cpa" -> base (CopyAssign tg)
+        | "mva" -> base (MoveAssign tg)
+        | "cpc" -> base (CopyConstruct tg)
+        | "mrt" -> base (MoveRoundTrip tg)
+        | "eif" -> let p = next_z t in base (EraseIf (tg, p))
+        | "erv" -> let x = next_z t in base (EraseVal (tg, x))
+        | "at" -> let i = next_z t in base (At (tg, i))
+        | "fr" -> base (Front tg)
+        | "bk" -> base (Back tg)
+        | "sca" -> base (SelfCopyAssign tg)
+        | "ssw" -> base (SelfSwap tg)
+        | "rit" -> let k = next_z t in push (RIter (tg, k))
+        | "cit" -> push (CIter tg)
+        | "sat" -> let i = next_z t in let x = next_z t in push (SetAt (tg, i, x))
+        | "sfr" -> let x = next_z t in push (SetFront (tg, x))
+        | "sbk" -> let x = next_z t in push (SetBack (tg, x))
+        | "dat" -> push (DataRead tg)
+        | "mxs" -> push (MaxSize tg)
+        | "sma" -> push (SelfMoveAssign tg)
+        | "mir" -> let p = next_z t in let xs = next_zlist t in push (MoveInsertRange (tg, p, xs))
+        | "ctn" -> let n = next_z t in push (CtorN (tg, n))
+        | "ctv" -> let n = next_z t in let x = next_z t in push (CtorNVal (tg, n, x))
+        | "ctr" -> let xs = next_zlist t in push (CtorRange (tg, xs))
+        | "cpi" -> let d = b t in let x = next_z t in push (CopyIndep (tg, d, x))
         | _ -> raise Not_found))
   done;
-  (List.rev !ops, List.rev !ivs)
+  List.rev !ops
+
+let parse_st (t : toks) : st_op list =
+  let k = next_int t in
+  let ops = ref [] in
+  let push x = ops := x :: !ops in
+  for _ = 1 to k do
+    let o = next_str t in
+    (match o with
+     | "swp" -> push StSwap
+     | "fsw" -> push StSwapFree
+     | "rel" -> push StRelations
+     | _ ->
+       let tg = b t in
+       (match o with
+        | "pb" -> let x = next_z t in push (StPush (tg, x))
+        | "pbr" -> let x = next_z t in push (StPushRv (tg, x))
+        | "eb" -> let x = next_z t in push (StEmplace (tg, x))
+        | "pop" -> push (StPop tg)
+        | "bk" -> push (StTop tg)
+        | "sbk" -> let x = next_z t in push (StSetTop (tg, x))
+        | "siz" -> push (StSize tg)
+        | "cpc" -> push (StCopyConstruct tg)
+        | "mvc" -> push (StMoveConstruct tg)
+        | "cpa" -> push (StCopyAssign tg)
+        | "mva" -> push (StMoveAssign tg)
+        | "sca" -> push (StSelfAssign tg)
+        | "fcc" -> let xs = next_zlist t in push (StFromContainer (tg, xs))
+        | "fcr" -> let xs = next_zlist t in push (StFromContainerRv (tg, xs))
+        | _ -> raise Not_found))
+  done;
+  List.rev !ops
+
+let parse_iv (t : toks) : iv_xop list =
+  let k = next_int t in
+  let ops = ref [] in
+  let push x = ops := x :: !ops in
+  let base x = push (IvBase x) in
+  for _ = 1 to k do
+    let o = next_str t in
+    let tg = b t in
+    (match o with
+     | "tpb" -> let x = next_z t in base (IvTryPush (tg, x))
+     | "upb" -> let x = next_z t in base (IvUncheckedPush (tg, x))
+     | "pop" -> base (IvPop tg)
+     | "clr" -> base (IvClear tg)
+     | "at" -> let i = next_z t in base (IvAt (tg, i))
+     | "fr" -> base (IvFront tg)
+     | "bk" -> base (IvBack tg)
+     | "ivc" -> base (IvCopyConstruct tg)
+     | "ivm" -> base (IvMoveConstruct tg)
+     | "fil" -> let n = next_z t in let x = next_z t in push (IvFill (tg, n, x))
+     | "tem" -> let x = next_z t in push (IvTryEmplace (tg, x))
+     | "tpr" -> let x = next_z t in push (IvTryPushRv (tg, x))
+     | "uem" -> let x = next_z t in push (IvUncheckedEmplace (tg, x))
+     | "upr" -> let x = next_z t in push (IvUncheckedPushRv (tg, x))
+     | "cpa" -> push (IvCopyAssign tg)
+     | "mva" -> push (IvMoveAssign tg)
+     | "sca" -> push (IvSelfCopyAssign tg)
+     | "sma" -> push (IvSelfMoveAssign tg)
+     | "sat" -> let i = next_z t in let x = next_z t in push (IvSetAt (tg, i, x))
+     | "sfr" -> let x = next_z t in push (IvSetFront (tg, x))
+     | "sbk" -> let x = next_z t in push (IvSetBack (tg, x))
+     | "dat" -> push (IvDataRead tg)
+     | "mxs" -> push (IvMaxSize tg)
+     | "cpi" -> let d = b t in let x = next_z t in push (IvCopyIndep (tg, d, x))
+     | _ -> raise Not_found)
+  done;
+  List.rev !ops
 
 (* one step is printed as  "; <returned values> / <observation>"  exactly like the harness *)
-let fmt_step ((o, obs) : z list * z list) =
-  "; " ^ String.concat " " (List.map str_of_z o @ ["/"] @ List.map str_of_z obs)
+let add_step buf ((o, obs) : z list * z list) =
+  Buffer.add_string buf "; ";
+  List.iter (fun x -> Buffer.add_string buf (str_of_z x); Buffer.add_char buf ' ') o;
+  Buffer.add_string buf "/";
+  List.iter (fun x -> Buffer.add_char buf ' '; Buffer.add_string buf (str_of_z x)) obs
 
 let render (rs : (z list * z list) res list) : string =
   let buf = Buffer.create 256 in
   List.iter (fun r ->
       match r with
-      | Ok p -> Buffer.add_string buf (fmt_step p); Buffer.add_char buf ' '
+      | Ok p -> add_step buf p; Buffer.add_char buf ' '
       | Contract -> Buffer.add_string buf "; contract "
       | UB _ -> Buffer.add_string buf "; ub "
       | OutOfFuel -> Buffer.add_string buf "; out-of-fuel ") rs;
   Buffer.add_string buf "; live 0";
   Buffer.contents buf
 
+let render_spec = function
+  | None -> "na"
+  | Some outs -> render (List.map (fun l -> Ok l) outs)
+
+let has_prefix s p = String.length s >= String.length p && String.sub s 0 (String.length p) = p
+
 let run_case op t =
   match op with
   | "hist" ->
       let flavour = next_str t in
       let capi = next_int t in
-      let (ops, ivs) = parse_ops t in
       let s0 = (empty_vec (nat_of_int capi), empty_vec (nat_of_int capi)) in
-      let is_iv = String.length flavour >= 2 && String.sub flavour 0 2 = "iv" in
-      if is_iv then begin
-        let m = render (iv_run s0 ivs) in
-        (* spec *)
-        let rec go s = function
-          | [] -> Some []
-          | o :: rest ->
-            (match iv_spec_step (z_of_int capi) s o with
-             | None -> None
-             | Some (s', out) ->
-               (match go s' rest with
-                | Some r -> Some ((out, spec_observe (z_of_int capi) s') :: r)
-                | None -> None)) in
-        let sp = match go ([], []) ivs with
-          | None -> "na"
-          | Some outs -> render (List.map (fun l -> Ok l) outs) in
-        (m, sp)
+      let cz = z_of_int capi in
+      if has_prefix flavour "iv" then begin
+        let ops = parse_iv t in
+        (render (iv_xrun s0 ops), render_spec (iv_xspec_run cz ([], []) ops))
+      end else if has_prefix flavour "st" then begin
+        let ops = parse_st t in
+        (render (st_run s0 ops), render_spec (st_spec_run cz ([], []) ops))
       end else begin
-        let m = render (run pred_of s0 ops) in
-        let sp = match spec_run pred_of (z_of_int capi) ([], []) ops with
-          | None -> "na"
-          | Some outs -> render (List.map (fun l -> Ok l) outs) in
-        (m, sp)
+        let ops = parse_sv t in
+        (render (xrun pred_of s0 ops), render_spec (xspec_run pred_of cz ([], []) ops))
       end
   | _ -> raise Not_found
 
